@@ -293,3 +293,80 @@ def u_ring_addon_tiling(ctx):
 
 
 REPLAYERS["ring[operator module's tiling helper is reproducible after prng.seed]"] = _addon_tiling_case
+
+
+# ---------------------------------------------------------------------------
+# native: a seeded simulation is a function of the seed -- not of what the process' memory held before.  Expected maximum breeding
+# values with per-taxon replicate counts, computed twice from the same seed, once with numpy.empty handing out zeros and once with
+# numpy.empty handing out a large sentinel (whatever an uninitialised buffer may contain must not reach the result)
+def _embv_case(case):
+    import contextlib
+    import warnings
+    import numpy as np
+    from pybrops.core.random import prng
+    from pybrops.popgen.gmat.DensePhasedGenotypeMatrix import DensePhasedGenotypeMatrix
+    from pybrops.model.gmod.DenseAdditiveLinearGenomicModel import DenseAdditiveLinearGenomicModel
+    from pybrops.model.embvmat.DenseExpectedMaximumBreedingValueMatrix import DenseExpectedMaximumBreedingValueMatrix as E_
+    rs = np.random.RandomState(case["seed"])
+    n, p, t = case["n"], case["p"], case["t"]
+    pg = DensePhasedGenotypeMatrix(mat=rs.randint(0, 2, size=(2, n, p)).astype("int8"), vrnt_chrgrp=np.ones(p, dtype="int64"),
+                                   vrnt_phypos=np.arange(1, p + 1, dtype="int64"), vrnt_xoprob=np.array([0.5] + [0.3] * (p - 1)),
+                                   taxa=np.array(["t%d" % i for i in range(n)], dtype=object), taxa_grp=np.arange(n, dtype="int64"))
+    pg.group_vrnt()
+    gm = DenseAdditiveLinearGenomicModel(beta=rs.normal(size=(1, t)), u_misc=None, u_a=rs.normal(size=(p, t)),
+                                         trait=np.array(["y%d" % k for k in range(t)], dtype=object))
+
+    @contextlib.contextmanager
+    def filled(value):
+        real = np.empty
+
+        def empty(*a, **k):
+            out = real(*a, **k)
+            if out.dtype.kind == "f":
+                out.fill(value)
+            return out
+        np.empty = empty
+        try:
+            yield
+        finally:
+            np.empty = real
+    st = np.random.get_state()
+    outs = []
+    try:
+        for fillv in (0.0, 1.0e6):
+            prng.seed(case["seed"] % (2 ** 31))
+            with filled(fillv), warnings.catch_warnings():
+                warnings.simplefilter("ignore")
+                em = E_.from_gmod(gm, pg, case["nprogeny"], np.array(case["nrep"], dtype="int64") if isinstance(case["nrep"], list) else case["nrep"])
+            outs.append(np.array(em.unscale(), copy=True))
+    finally:
+        np.random.set_state(st)
+    if outs[0].shape != (n, t) or not np.all(np.isfinite(outs[0])) or not np.all(np.isfinite(outs[1])):
+        return True, "expected maximum breeding values of shape %r with non-finite entries" % (outs[0].shape,)
+    if not np.array_equal(outs[0], outs[1]):
+        return True, ("same seed %d, same calls, nrep %r: expected maximum breeding values differ with the content of freshly allocated "
+                      "(uninitialised) buffers: %r vs %r" % (case["seed"], case["nrep"], outs[0].tolist(), outs[1].tolist()))
+    return False, "ok"
+
+
+@unit(P, "ring[seeded expected-maximum-breeding-value simulation does not depend on uninitialised memory]", "R", bounded=True,
+      targets=["pybrops/model/embvmat/DenseExpectedMaximumBreedingValueMatrix.py:DenseExpectedMaximumBreedingValueMatrix.from_gmod"],
+      note="bounded: 40 (thorough 600) seeded cases, <=4 taxa, <=5 markers, <=2 traits, scalar and per-taxon replicate counts 1-3")
+def u_ring_embv(ctx):
+    ctx.rule = "seeded cases; numpy's global generator saved and restored; every case counted; distinct by the case"
+    for c in range(40 if ctx.tier == "quick" else 600):
+        n = ctx.rng.choice([2, 3, 4])
+        nrep = ctx.rng.choice([2, [ctx.rng.choice([1, 2, 3]) for _ in range(n)], [ctx.rng.choice([1, 2, 3]) for _ in range(n)]])
+        case = dict(seed=ctx.rng.randrange(10 ** 9), n=n, p=ctx.rng.choice([2, 3, 5]), t=ctx.rng.choice([1, 2]), nprogeny=ctx.rng.choice([1, 2, 3]), nrep=nrep)
+        try:
+            bad, msg = _embv_case(case)
+        except Exception as x:
+            bad, msg = True, "exception %s: %s" % (type(x).__name__, x)
+        ctx.case(repr(sorted(case.items(), key=str)), nontrivial=True, sample=case if c < 2 else None)
+        if bad:
+            ctx.fail_input("ring:embv:independent-of-uninitialised-memory", case, cls="embv-memory", message=msg)
+            if len(ctx.failures) >= 3:
+                return
+
+
+REPLAYERS["ring[seeded expected-maximum-breeding-value simulation does not depend on uninitialised memory]"] = _embv_case
